@@ -489,6 +489,32 @@ class C01(Prop):
             yield {"kind": "calibration", "name": name, "prog": prog, "data": data, "want": want, "cfg": DEFAULT_CFG,
                    "layout": 1000 + i}
 
+        # every modelled filter with every argument replaced in turn by a value of each type (the model answers
+        # `unsup` where the reference does not say what happens)
+        from lv.gen.grammar import FILTERS as GF
+        lefts = {"str": ["path", "s", []], "seq": ["path", "nums", []], "list": ["path", "nums", []],
+                 "hashes": ["path", "items", []], "num": ["path", "n", []], "int": ["path", "n", []],
+                 "float": ["path", "f", []], "any": ["path", "s", []], "strs": ["path", "words", []],
+                 "ints": ["path", "nums", []]}
+        plain = {"str": ["str", "p"], "int": ["int", 2], "num": ["int", 2], "float": ["float", "1.5"],
+                 "any": ["str", "p"], "key": ["str", "title"], "bool": ["true"]}
+        odd = [["nil"], ["true"], ["false"], ["float", "1.5"], ["int", -1], ["range", ["int", 1], ["int", 2]],
+               ["path", "nums", []], ["path", "user", [["n", "first"]]], ["path", "nosuch", []], ["str", ""]]
+        data = {"s": "a p b", "nums": [3, 1, 2], "words": ["b", "a"], "n": 7, "f": 2.5, "user": {"name": "apple"},
+                "items": [{"title": "t1", "price": 2}, {"title": "t0", "price": 1}]}
+        for name in FILTERS:
+            spec = GF.get(name)
+            if spec is None or not spec[1] or spec[0] not in lefts:
+                continue
+            kinds = [k.rstrip("?") for k in spec[1]]
+            if any(k not in plain for k in kinds):
+                continue
+            for pos in range(len(kinds)):
+                for val in odd:
+                    args = [["pos", val if j == pos else plain[k]] for j, k in enumerate(kinds)]
+                    prog = {"main": [{"t": "out", "e": ["filtered", lefts[spec[0]], [{"name": name, "args": args}]],
+                                      "wc": ["", ""]}], "templates": {}}
+                    yield {"kind": "arg-types", "prog": prog, "data": data, "cfg": DEFAULT_CFG, "layout": 0}
         # O5 - cycle iterators are told apart by their items (and name): literal lists that differ in an item
         # never share an iterator, identical lists do
         for i, a in enumerate(CYCLE_ITEMS):
